@@ -48,8 +48,13 @@ def frm(M, ncols=None):
     return [[fr(x) for x in row] for row in M.tolist()]
 
 
+_REUSE = [None]
+
+
 def mk(c):
     from sageopt.coniclifts.cones import Cone
+    if _REUSE[0] is not None:
+        return _REUSE[0]           # the reuse stream hands the SAME objects to several applications in a row
     m = len(c['b'])
     A = sp.csc_matrix(np.array([[float(F(v)) for v in r] for r in c['A']], dtype=float).reshape(m, c['n']))
     b = np.array([float(F(v)) for v in c['b']], dtype=float)
@@ -76,10 +81,10 @@ def impl_ecos(c):
 def impl_separate(c):
     from sageopt.coniclifts.reformulators import separate_cone_constraints
     cc, A, b, K = mk(c)
-    K0 = list(K)
+    K0 = Kj(K)
     ds = None if c['dont_sep'] is None else set(c['dont_sep'])
     A1, b1, K1, sl = separate_cone_constraints(A, b, K, ds)
-    assert Kj(K) == Kj(K0), 'input cone list was modified'
+    assert Kj(K) == K0, 'input cone list was modified'
     return {'A': frm(A1, c['n']), 'b': frl(b1), 'K': Kj(K1),
             'slacks': [[co.type, int(co.len), [int(v) for v in co.annotations['col mapping']]] for co in sl]}
 
@@ -573,6 +578,37 @@ def run(ctx):
     assert 'mosek' not in sys.modules, 'stub leaked'
     ctx.exhaustive = True
 
+    # second and later applications on the SAME (c, A, b, K) objects (Problem keeps one system and hands it to every solver and
+    # every re-solve): each must return what it returns on a fresh copy
+    runners = {'ecos': impl_ecos, 'separate': impl_separate, 'dualize': impl_dualize, 'mosek_primal': impl_mosek_primal,
+               'mosek_dual': impl_mosek_dual}
+    reuse_pool = [c for c in sep_cases if len(c['K']) >= 1 and any(t in ('S', 'e') for t, _ in c['K'])]
+    rng.shuffle(reuse_pool)
+    for c in reuse_pool[:(120 if quick else 1200)]:
+        order = [rng.choice(sorted(runners)) for _ in range(rng.randint(2, 3))]
+        ctx.case({'stream': 'reuse', 'K': c['K'], 'order': order}, nontrivial=True)
+        ctx.count('stream:reuse')
+        try:
+            fresh = [common.canon_json(runners[o](c)) for o in order]
+        except Exception:  # noqa: BLE001
+            ctx.count('reuse:skipped-raises')
+            continue
+        _REUSE[0] = mk(c)
+        try:
+            for k, o in enumerate(order):
+                try:
+                    got = common.canon_json(runners[o](c))
+                except AssertionError as e:
+                    got = 'AssertionError: %s' % e
+                if got != fresh[k]:
+                    ctx.violation('application #%d (%s) on the same (c, A, b, K) objects, after %s, returns different data than on a fresh '
+                                  'copy of the system: an earlier application changed the caller\'s system (K is now %s, was %s)'
+                                  % (k + 1, o, order[:k], Kj(_REUSE[0][3]), c['K']),
+                                  {'kind': 'reuse', 'case': c, 'order': order})
+                    break
+        finally:
+            _REUSE[0] = None
+
     # independent oracles on the implementation's outputs
     def pts_for(c):
         base = dict(c)
@@ -629,6 +665,26 @@ def replay(obj):
     c = r['case']
     rng = random.Random(0)
     kind = r['kind']
+    if kind == 'reuse':
+        runners = {'ecos': impl_ecos, 'separate': impl_separate, 'dualize': impl_dualize, 'mosek_primal': impl_mosek_primal,
+                   'mosek_dual': impl_mosek_dual}
+        fresh = [common.canon_json(runners[o](c)) for o in r['order']]
+        _REUSE[0] = mk(c)
+        bad = None
+        try:
+            for k, o in enumerate(r['order']):
+                try:
+                    got = common.canon_json(runners[o](c))
+                except AssertionError as e:
+                    got = 'AssertionError: %s' % e
+                if got != fresh[k]:
+                    bad = 'application #%d (%s) on the same objects differs from the fresh copy; K is now %s' % (k + 1, o, Kj(_REUSE[0][3]))
+                    break
+        finally:
+            _REUSE[0] = None
+        print('case:', common.canon_json(c), 'order:', r['order'])
+        print('oracle:', bad or 'ok')
+        return 1 if bad else 0
     pts = [[F(v) for v in r['point']]] if r.get('point') else sample_points(c, rng)
     if kind == 'ecos':
         out = common.impl_call(impl_ecos, c)
